@@ -4,13 +4,13 @@ package main
 
 import (
 	"bytes"
+	"encoding/json"
+	"errors"
+	"fmt"
 	"math/rand"
 	"os"
 	"os/exec"
 	"path/filepath"
-	"encoding/json"
-	"errors"
-	"fmt"
 	"runtime"
 	"slices"
 	"strconv"
@@ -912,14 +912,14 @@ func exploreConc(r *Run, g *concGen, only string, timeout time.Duration) *concRe
 // ---- D2: free-running stress under the race detector, recorded and validated by Trace_Conc ---------------
 
 type stressEvent struct {
-	Seq    int64  `json:"-"`
-	E      string `json:"e"`
-	G      int    `json:"g"`
-	Single bool   `json:"single"`
+	Seq    int64   `json:"-"`
+	E      string  `json:"e"`
+	G      int     `json:"g"`
+	Single bool    `json:"single"`
 	Ops    [][]any `json:"ops"`
-	End    string `json:"end"`
-	Res    any    `json:"res"`
-	Call   []any  `json:"call"`
+	End    string  `json:"end"`
+	Res    any     `json:"res"`
+	Call   []any   `json:"call"`
 }
 
 type stressWorker struct {
@@ -950,11 +950,84 @@ var stressHookNames = map[int]string{fox.VerifLockWait: "lw", fox.VerifLockAcqui
 	fox.VerifAfterStore: "as", fox.VerifAbort: "ab", fox.VerifUnlocked: "ul"}
 
 // runStress drives nW writers and nR readers freely on one router and returns the merged event trace.
+// Echo traffic: requests on routes no writer touches (method ECHO: a static hostname, a parameter hostname, several
+// path parameters, an infix catch-all), sent by goroutines outside the recorded history while the tree below them is
+// being replaced. The handler reports the parameters it sees; they must be the ones of its own request (C05: no data
+// race, every request is routed atomically on one version; C12 under real concurrency).
+var stressEchoRoutes = []string{"static.example/e/{x}/{y}", "{h}.example/p/{x}", "/e/{x}/*{w}/end", "/q/{x}/{y}/{z}", "/i/{x}/"}
+
+type echoMismatch struct {
+	Route string `json:"route"`
+	Want  string `json:"want"`
+	Got   string `json:"got"`
+}
+
+var stressEchoMu sync.Mutex
+var stressEchoBad []echoMismatch
+var stressEchoCount atomic.Int64
+
+func echoHandler(c fox.Context) {
+	var sb strings.Builder
+	for p := range c.Params() {
+		sb.WriteString(p.Key + "=" + p.Value + ";")
+	}
+	runtime.Gosched() // leave room for another request to reuse a pooled context
+	var sb2 strings.Builder
+	for p := range c.Params() {
+		sb2.WriteString(p.Key + "=" + p.Value + ";")
+	}
+	if sb.String() != sb2.String() {
+		c.Writer().Header().Set("X-Echo", "changed while in flight: "+sb.String()+" -> "+sb2.String())
+		return
+	}
+	c.Writer().Header().Set("X-Echo", sb.String())
+}
+
+func echoOnce(rt *fox.Router, rng *rand.Rand) {
+	tok := func() string { return fmt.Sprintf("t%d", rng.Intn(1000000)) }
+	a, b, cc := tok(), tok(), tok()
+	var host, path, want, route string
+	switch rng.Intn(6) {
+	case 0:
+		route, host, path, want = stressEchoRoutes[0], "static.example", "/e/"+a+"/"+b, "x="+a+";y="+b+";"
+	case 1:
+		route, host, path, want = stressEchoRoutes[1], a+".example", "/p/"+b, "h="+a+";x="+b+";"
+	case 2:
+		route, host, path, want = stressEchoRoutes[2], "other.test", "/e/"+a+"/"+b+"/"+cc+"/end", "x="+a+";w="+b+"/"+cc+";"
+	case 3:
+		route, host, path, want = stressEchoRoutes[3], "", "/q/"+a+"/"+b+"/"+cc, "x="+a+";y="+b+";z="+cc+";"
+	case 4:
+		route, host, path, want = stressEchoRoutes[4], "", "/i/"+a, "x="+a+";" // through the ignored trailing slash
+	default:
+		route, host, path, want = stressEchoRoutes[4], a+".example", "/i/"+b+"/", "x="+b+";"
+	}
+	req, _ := newRequest("ECHO", host, path, "")
+	pw := newPlainWriter()
+	rt.ServeHTTP(pw, req)
+	stressEchoCount.Add(1)
+	if got := pw.h.Get("X-Echo"); got != want {
+		stressEchoMu.Lock()
+		if len(stressEchoBad) < 5 {
+			stressEchoBad = append(stressEchoBad, echoMismatch{Route: route, Want: want, Got: got})
+		}
+		stressEchoMu.Unlock()
+	}
+}
+
 func runStress(seed int64, keys []string, nW, nR, opsPerWorker int, yield bool) []stressEvent {
 	stressCtr.Store(0)
 	rt, err := fox.New()
 	if err != nil {
 		failTool("fox.New: %v", err)
+	}
+	for _, p := range stressEchoRoutes {
+		var ro []fox.RouteOption
+		if strings.HasSuffix(p, "/") {
+			ro = append(ro, fox.WithIgnoreTrailingSlash(true))
+		}
+		if _, err := rt.Handle("ECHO", p, echoHandler, ro...); err != nil {
+			failTool("echo route %s: %v", p, err)
+		}
 	}
 	fox.VerifSetHook(func(r *fox.Router, point int) {
 		if r != rt {
@@ -1081,7 +1154,7 @@ func runStress(seed int64, keys []string, nW, nR, opsPerWorker int, yield bool) 
 					sw.log(stressEvent{E: "rret", Res: []any{m}})
 				case 1:
 					sw.log(stressEvent{E: "rcall", Call: []any{"len"}})
-					n := rt.Len()
+					n := rt.Len() - len(stressEchoRoutes) // the echo routes are not part of the recorded history
 					sw.log(stressEvent{E: "rret", Res: []any{n}})
 				default:
 					k := 1 + rng.Intn(len(keys))
@@ -1108,6 +1181,16 @@ func runStress(seed int64, keys []string, nW, nR, opsPerWorker int, yield bool) 
 				}
 			}
 		}(sw)
+	}
+	for e := 0; e < 4; e++ {
+		wg.Add(1)
+		go func(e int) {
+			defer wg.Done()
+			rng := rand.New(rand.NewSource(seed*31337 + int64(e)))
+			for n := 0; n < opsPerWorker*40 && !writersDone.Load(); n++ {
+				echoOnce(rt, rng)
+			}
+		}(e)
 	}
 	go func() { wwg.Wait(); writersDone.Store(true) }()
 	wg.Wait()
@@ -1161,6 +1244,11 @@ func stressMain(dir string, seed int64, tier string) int {
 		}
 		g.Calls = [][]any{{"len"}}
 		os.WriteFile(filepath.Join(dir, fmt.Sprintf("gen-%d.tla", n)), []byte(g.tla()), 0o644)
+		stressEchoMu.Lock()
+		echo, _ := json.Marshal(map[string]any{"requests": stressEchoCount.Load(), "mismatches": stressEchoBad})
+		stressEchoBad = nil
+		stressEchoMu.Unlock()
+		os.WriteFile(filepath.Join(dir, fmt.Sprintf("echo-%d.json", n)), echo, 0o644)
 		meta, _ := json.Marshal(map[string]any{"keys": keys, "writers": nW, "readers": nR, "gomaxprocs": procs, "events": len(evs)})
 		os.WriteFile(filepath.Join(dir, fmt.Sprintf("meta-%d.json", n)), meta, 0o644)
 	}
@@ -1207,7 +1295,19 @@ func runStressD2(r *Run) {
 			os.WriteFile(keep, tr, 0o644)
 			r.violation(fmt.Sprintf("stress trace %d rejected", n), map[string]any{"kind": "trace", "trace_file": keep, "setup": json.RawMessage(meta),
 				"prescribed": "some placement of the unlogged steps (lock, load, store, unlock, reader load) explains every recorded event with every invariant holding",
-				"obtained": tail(res.Output, 25)})
+				"obtained":   tail(res.Output, 25)})
+		}
+		if eb, err := os.ReadFile(filepath.Join(dir, fmt.Sprintf("echo-%d.json", n))); err == nil {
+			var er struct {
+				Requests   int64          `json:"requests"`
+				Mismatches []echoMismatch `json:"mismatches"`
+			}
+			json.Unmarshal(eb, &er)
+			r.setCov("echo_requests_under_stress", er.Requests)
+			for _, mm := range er.Mismatches {
+				r.violation(fmt.Sprintf("stress echo route=%s: the handler saw parameters of another request", mm.Route), map[string]any{"kind": "trace", "setup": json.RawMessage(meta),
+					"prescribed": mm.Want, "obtained": mm.Got})
+			}
 		}
 		if n == 0 {
 			lines := strings.SplitN(string(tr), "\n", 12)
